@@ -7,7 +7,13 @@ CORR = ("Differential correspondence of the executable Lean model with the real 
 PR = "proof"
 
 CHECKS = {
-    "C01": (TV, "Lean model + correspondence (proofs in progress)", CORR, "", "DESIGN.md 5/C01"),
+    "C01": (PR, "Lean 4 theorems: exec = reference semantics (all trees), factory calls preserve it (all histories) + correspondence",
+            "Machine-checked for every construction history inside one iteration engine (any number of unary operations, "
+            "chain, materialized) and every leaf content: the tree the factories build, executed by the engine model "
+            "(dict deduplication, multi-pass sort, enumerate-based slices, payload cache, metadata short-cuts), yields "
+            "exactly the rows - values, multiplicity, order - of the direct evaluation of the operation sequence; "
+            "never fails; and again from any store left behind by earlier executions. " + CORR,
+            "", "DESIGN.md 5/C01"),
     "C02": (TV, "Lean model + correspondence (proofs in progress)", CORR, "", "DESIGN.md 5/C02"),
     "C03": (TV, "Lean model + correspondence (proofs in progress)", CORR, "", "DESIGN.md 5/C03"),
     "C04": (TV, "Lean model + correspondence (proofs in progress)", CORR, "", "DESIGN.md 5/C04"),
